@@ -121,6 +121,12 @@ func checkListing(p *Prog, l *Ledger, keysT, valuesT string) {
 				inf.elems[normName(e.Args[1])] = true
 			}
 		}
+		// filling a pre-sized result by position is the same listing: result[i] = element i
+		for _, e := range m.G.Events("indexstore") {
+			if len(e.Args) == 2 && strings.HasSuffix(e.Args[0], "[range]") && strings.HasPrefix(e.Args[0], "obj:") {
+				inf.elems[normName(e.Args[1])] = true
+			}
+		}
 		// one append per iteration, result is the accumulator
 		mon := Monitor{Init: "out", Step: func(s string, ev *Event) string {
 			switch ev.Op {
@@ -135,9 +141,9 @@ func checkListing(p *Prog, l *Ledger, keysT, valuesT string) {
 					return "!an entry is skipped: the last iteration ends without appending"
 				}
 				return "done"
-			case "append":
+			case "append", "indexstore":
 				if s != "in" {
-					return "!an entry is listed twice (two appends in one iteration) or outside the loop"
+					return "!an entry is listed twice (two stores in one iteration) or outside the loop"
 				}
 				return "appended"
 			case "backedge":
